@@ -194,3 +194,8 @@ vcf_other = Contract("C02.VCFBuffer._get_field_by_number[other column]", target=
                      callees={"bionumpy.io.delimited_buffers.DelimitedBuffer._get_field_by_number": _parsed},
                      canaries=[("every column shifted", "if field_nr == 1:", "if field_nr >= 1:")])
 CONTRACTS += [vcf_pos, vcf_other]
+
+
+# --- the dispatcher in front of the digit matrix (int columns): '+' / '-' signed columns never reach the digits-only path (contract shared with C18)
+from contracts.c18 import mk_digit_dispatch      # noqa: E402
+CONTRACTS.append(mk_digit_dispatch("C02"))
